@@ -176,7 +176,7 @@ def run(tier, seed):
                     checks.append(('peek', src, dict(inner=inner, data=d, start=st)))
         elif kind in ('select', 'optional'):
             alts = [rng.choice(ALTS) for _ in range(rng.randint(1, 3))] if kind == 'select' else [rng.choice(ALTS), 'Pass']
-            if rng.random() < 0.1:
+            if kind == 'select' and rng.random() < 0.1:
                 alts.insert(rng.randrange(len(alts) + 1), 'Error')
             src = 'Select(%s)' % ', '.join(alts) if kind == 'select' else 'Optional(%s)' % alts[0]
             for d in datas(rng, alts, 6):
